@@ -528,7 +528,7 @@ class NetworkXPropertyGraph(ABCPropertyGraph, NetworkXMixin):
             neighbor_drop_list = list()
             for k in second_neighbors:
                 if graph.edges[(n, k)].get(self.NETWORKX_LABEL, None) != rel2:
-                    neighbor_drop_list.append(k)
+                    neighbor_drop_list.append(n)
             second_neighbors = second_neighbors.difference(neighbor_drop_list)
             # filter second neighbors by label
             second_neighbors = self._filter_nodes_by_label(graph, second_neighbors, node2_label)
